@@ -254,7 +254,11 @@ func (s *clientSocket) Connect() {
 }
 
 func (s *clientSocket) Disconnect() {
-	if s.connectedOrConnectPending() {
+	// Send a DISCONNECT packet only if the server has accepted our CONNECT. While the CONNECT is pending
+	// the server doesn't have a socket for this namespace yet: it would treat a DISCONNECT as a packet
+	// for a namespace we haven't joined, and close the whole connection (with all other namespaces on it).
+	// If the CONNECT gets accepted later, `onConnect` will answer with the DISCONNECT.
+	if s.Connected() {
 		s.debug.Log("Performing disconnect", s.namespace)
 		s.sendControlPacket(parser.PacketTypeDisconnect, nil)
 	}
@@ -383,6 +387,17 @@ func (s *clientSocket) onPacket(header *parser.PacketHeader, eventName string, d
 }
 
 func (s *clientSocket) onConnect(_ *parser.PacketHeader, decode parser.Decode) {
+	s.stateMu.RLock()
+	abandoned := s.state == clientSocketConnStateDisconnected
+	s.stateMu.RUnlock()
+	if abandoned {
+		// This is the reply to a CONNECT we have given up in the meantime (`Disconnect` was called while it was pending).
+		// We are not connected. Tell the server, which has just created a socket for us.
+		s.debug.Log("CONNECT reply for a socket that is not connecting. Disconnecting")
+		s.sendControlPacket(parser.PacketTypeDisconnect, nil)
+		return
+	}
+
 	connectError := func(err error) {
 		err = fmt.Errorf("sio: invalid CONNECT packet: %w: it seems you are trying to reach a Socket.IO server in v2.x with a v3.x client, but they are not compatible (more information here: https://socket.io/docs/v3/migrating-from-2-x-to-3-0/)", err)
 		s.connectErrorHandlers.forEach(func(handler *ClientSocketConnectErrorFunc) { (*handler)(err) }, true)
